@@ -63,6 +63,19 @@ Theorem dino_masks_have_grid_size : forall c B tr ms, dcfg_ok c -> 0 <= B -> For
 Proof. exact P_dino_masks_have_grid_size. Qed.
 Print Assumptions dino_masks_have_grid_size.
 
+(* a sequence of calls on ONE collator object (full batches, then the smaller last batch of an epoch; or smaller then
+   larger; calls without ctx in between): the k-th call meets the spec for ITS OWN batch size - budget
+   floor(B_k * views * mask_prob) - whatever the earlier calls were; a call without ctx returns no mask and draws
+   nothing.  (The model's sequence semantics [dino_seq] carries no state from call to call; that the real collator
+   object does not either is what the correspondence run checks on every generated sequence.) *)
+Theorem dino_every_call_of_a_sequence_meets_spec : forall c calls k has_ctx B tr b r,
+  dcfg_ok c -> nth_error calls k = Some (has_ctx, B, tr) -> 0 <= B -> Forall draw_ok tr ->
+  nth_error (dino_seq c calls) k = Some (Ok (b, r)) ->
+  (has_ctx = true -> exists ms, r = Some ms /\ dino_ok c B ms) /\
+  (has_ctx = false -> r = None /\ tr = []).
+Proof. exact dino_seq_ok. Qed.
+Print Assumptions dino_every_call_of_a_sequence_meets_spec.
+
 (* ============================================================== I-JEPA *)
 (* everything the property says about one call of the I-JEPA collator, at once; in addition the sizes are the
    step's sizes, the counter advanced by one and, inside the premise, no constrained sampling was retried *)
@@ -136,6 +149,47 @@ Theorem ijepa_constrained_ends_when_block_exceeds_min_keep : forall fuel c eh ew
 Proof. exact constrained_ends. Qed.
 Print Assumptions ijepa_constrained_ends_when_block_exceeds_min_keep.
 
+(* beyond the property, OUTSIDE the premise: what the documented relaxation still guarantees.  If
+   _sample_block_mask_constrained (entered with the counter tries, acceptable_regions = complements of the predictor
+   blocks gs) returns after n rejected iterations - 2 integer draws each - the returned encoder mask shares no patch with
+   the FIRST max(num_pred_masks - (tries + n) // self.tries, 0) predictor blocks of the sample: disjointness at relaxation
+   level (tries + n) // self.tries. *)
+Theorem ijepa_constrained_disjoint_at_relaxation_level : forall fuel c eh ew gs tries tr l tr',
+  constrained fuel c eh ew (map (map negb) gs) tries tr = Ok (l, tr') ->
+  exists n : nat, length tr = (2 * S n + length tr')%nat /\
+    forall g, In g (firstn (Z.to_nat (Z.max (len gs - (tries + Z.of_nat n) / jTries c) 0)) gs) -> disjoint l (nz 0 g).
+Proof. exact constrained_relaxed. Qed.
+Print Assumptions ijepa_constrained_disjoint_at_relaxation_level.
+
+(* beyond the property: draw-count bound for a WHOLE collate call, inside or outside the premise: as soon as the clamped
+   encoder block of the step has more than min_keep patches (tries >= 1), a call on a batch of B samples makes at most
+   one seeding + B * (2 * num_pred_masks + num_enc_masks * 2 * (num_pred_masks * tries + 1)) integer draws - so a call
+   that exceeds this bound (the harness' RUNAWAY classification) can only occur with an encoder block <= min_keep *)
+Theorem ijepa_collate_draw_count_bound : forall c sizes ctr B tr o,
+  jcfg_ok c -> sizes_ok sizes -> 0 <= B -> Forall draw_ok tr -> 1 <= jTries c ->
+  ijepa_collate c sizes ctr B tr = Ok o ->
+  jMinKeep c < fst (o_esize o) * snd (o_esize o) ->
+  Z.of_nat (length tr) <=
+  1 + B * (2 * Z.of_nat (jNPred c) + Z.of_nat (jNEnc c) * (2 * (Z.of_nat (jNPred c) * jTries c + 1))).
+Proof. exact ijepa_collate_draws. Qed.
+Print Assumptions ijepa_collate_draw_count_bound.
+
+(* a sequence of calls on ONE collator object, started with counter ctr: the k-th call sees the counter
+   ctr + (number of earlier calls that had a ctx), a call with ctx uses the block sizes of that counter value alone
+   (not of batch sizes, draws or outputs of earlier calls), advances the counter by one and meets the spec for its own
+   batch size; a call without ctx returns nothing *)
+Theorem ijepa_every_call_of_a_sequence_meets_spec : forall calls c sizes ctr k has_ctx B tr ctrk r,
+  jcfg_ok c -> sizes_ok sizes -> Forall call_ok calls ->
+  nth_error calls k = Some (has_ctx, B, tr) ->
+  nth_error (ijepa_seq c sizes ctr calls) k = Some (ctrk, r) ->
+  ctrk = ctr + nctx (firstn k calls) /\
+  (has_ctx = false -> r = None) /\
+  (has_ctx = true -> exists o, r = Some o /\ (o_psize o, o_esize o) = block_sizes c sizes ctrk /\
+                               o_ctr o = ctrk + 1 /\
+                               ijepa_ok c B (o_psize o) (o_esize o) (o_enc o) (o_pred o)).
+Proof. exact ijepa_seq_ok. Qed.
+Print Assumptions ijepa_every_call_of_a_sequence_meets_spec.
+
 (* ================================================================ both *)
 (* the batch is returned as it came; without a ctx nothing is drawn and the step counter does not move *)
 Theorem batch_passthrough : forall (A : Type) (batch : A),
@@ -161,3 +215,14 @@ Example ijepa_premises_satisfiable :
     o_enc o = ex_enc /\ o_pred o = ex_pred /\ o_psize o = (2, 2) /\ o_esize o = (4, 4) /\ o_ctr o = 0 /\
     premise ex_jcfg (o_psize o) (o_esize o).
 Proof. exact (conj ex_jcfg_ok (conj ex_sizes_ok (conj ex_jtrace_ok ex_ijepa_run))). Qed.
+
+(* recorded sequences of calls on one collator object satisfy the premises of the two sequence theorems: DINO with
+   batch sizes 2, (no ctx), 1 - the second batch is smaller; I-JEPA on a non-square 5 x 6 grid with steps 0, -, 1 *)
+Example dino_sequence_premises_satisfiable :
+  dcfg_ok ex_dcfg /\ Forall call_ok ex_dseq /\ dino_seq ex_dcfg ex_dseq = ex_dseq_out.
+Proof. exact (conj ex_dcfg_ok (conj ex_dseq_ok ex_dseq_run)). Qed.
+
+Example ijepa_sequence_premises_satisfiable :
+  jcfg_ok ex_jcfg2 /\ sizes_ok ex_sizes2 /\ Forall call_ok ex_jseq /\
+  map fst (ijepa_seq ex_jcfg2 ex_sizes2 (-1) ex_jseq) = [-1; 0; 0].
+Proof. exact (conj ex_jcfg2_ok (conj ex_sizes2_ok (conj ex_jseq_ok ex_jseq_ctrs))). Qed.
